@@ -119,14 +119,24 @@ def span_op(s, ws):
     raise ValueError("bad-op")
 
 
+def construct_span(ws):
+    """`span a b step ...` -> Span(a, b, step); `span>> x y ...` -> x >> y; `span<< x y ...` -> x << y (the operators of
+    _SpannableMixin, with None on either side going through the reflected methods). Returns (span, index of the first op word)"""
+    if ws[0] == "span":
+        return ir.Span(parse_endpoint(ws[1]), parse_endpoint(ws[2]), int(ws[3])), 4
+    x, y = parse_endpoint(ws[1]), parse_endpoint(ws[2])
+    if x is None and y is None:
+        raise ValueError("bad-op")   # None >> None is not a span expression
+    return (x >> y if ws[0] == "span>>" else x << y), 3
+
+
 def impl_span_line(ws) -> str:
-    a, b, st = parse_endpoint(ws[1]), parse_endpoint(ws[2]), int(ws[3])
     try:
-        s = ir.Span(a, b, st)
+        s, k = construct_span(ws)
     except Exception as e:
         return err_kind(e)
     out = [observe(s)]
-    ops = [o.strip() for o in " ".join(ws[4:]).split("|") if o.strip()]
+    ops = [o.strip() for o in " ".join(ws[k:]).split("|") if o.strip()]
     for op in ops:
         try:
             s, extra = span_op(s, op.split())
@@ -193,7 +203,7 @@ def impl_eval(line: str) -> str:
         if op == "pfu":
             r = D.periods_from_until(parse_endpoint(ws[1]), parse_endpoint(ws[2]), int(ws[3]))
             return "[" + ",".join(show_period(p) for p in r) + "]"
-        if op == "span":
+        if op in ("span", "span>>", "span<<"):
             return impl_span_line(ws)
     except Exception as e:
         return err_kind(e)
@@ -355,6 +365,30 @@ def gen_span_lines(ctx: Ctx):
         lines.append(f"span {e1} {e2} {st} | " + " | ".join(ops))
         ctx.count(f"span_kind_{kind}")
     ctx.count("span_random_sequences", len(lines) - k)
+    # spans built with the operators `x >> y` / `x << y` (periods, None, contextual start/end on either side, mixed
+    # frequencies), resolved against a context and then mutated like any other span
+    k = len(lines)
+    for _ in range(ctx.n(600, 8000)):
+        f = rng.choice(["Y", "H", "Q", "M", "D", "I"])
+        a0 = base[f] + rng.randint(-20, 20)
+
+        def endpoint(other_none):
+            c = rng.weighted([("per", 6), ("none", 0 if other_none else 3), ("cs", 1), ("ce", 1), ("mixed", 1)])
+            if c == "per": return f"{f}:{a0 + rng.randint(-12, 12)}"
+            if c == "none": return "-"
+            if c == "cs": return f"cs:{rng.randint(-3, 3)}"
+            if c == "ce": return f"ce:{rng.randint(-3, 3)}"
+            g = rng.choice([x for x in ["Y", "Q", "M", "I", "D"] if x != f])
+            return f"{g}:{base[g]}"
+        e1 = endpoint(False)
+        e2 = endpoint(e1 == "-")
+        sym = rng.choice(["span>>", "span<<"])
+        lo = a0 + rng.randint(-10, 0)
+        ops = [f"res {f}:{lo} {f}:{lo + rng.randint(0, 14)}"] if rng.chance(0.8) else []
+        ops += rand_span_ops(rng, f, rng.randint(0, 6), base)
+        lines.append(f"{sym} {e1} {e2} | " + " | ".join(ops))
+        ctx.count("span_operator_" + ("open" if "-" in (e1, e2) else "ctx" if ("c" in (e1[0], e2[0])) else "closed"))
+    ctx.count("span_operator_lines", len(lines) - k)
     # p ** n and periods_from_until
     for f in ("Q", "M", "I", "D"):
         for n in range(-5, 6):
@@ -509,18 +543,42 @@ def oracle_spans(ctx: Ctx, lines):
     plain enumeration of start, start+step, ... and that reversal / shifting do what the property says"""
     for line in lines:
         ws = line.split()
-        if ws[0] != "span":
+        if ws[0] not in ("span", "span>>", "span<<"):
             continue
         ctx.evaluations += 1
         case = {"line": line}
         try:
-            s = ir.Span(parse_endpoint(ws[1]), parse_endpoint(ws[2]), int(ws[3]))
+            s, k0 = construct_span(ws)
         except Exception:
             continue
-        ops = [o.strip() for o in " ".join(ws[4:]).split("|") if o.strip()]
+        if ws[0] != "span":
+            # x >> y runs forward from x (or the context's start) to y (or the context's end); x << y runs back from y (or the
+            # context's end) to x (or the context's start)
+            x, y = ws[1], ws[2]
+            want3 = (x if x != "-" else "cs:0", y if y != "-" else "ce:0", 1) if ws[0] == "span>>" else \
+                    (y if y != "-" else "ce:0", x if x != "-" else "cs:0", -1)
+            got3 = (show_endpoint(s._start), show_endpoint(s._end), s._step)
+            if got3 != want3:
+                ctx.fail("span-operator-construction", case, f"{x} {ws[0][4:]} {y} is the span {got3}, expected {want3}")
+                continue
+        ops = [o.strip() for o in " ".join(ws[k0:]).split("|") if o.strip()]
         for op in [None] + ops:
             try:
                 if op is not None:
+                    if op.split()[0] == "res":
+                        # resolution replaces exactly the contextual ends by the context's start/end plus their offset
+                        cs, ce = parse_endpoint(op.split()[1]), parse_endpoint(op.split()[2])
+                        def resolved(e):
+                            if isinstance(e, D.ContextualPeriod):
+                                return show_period((cs if e._resolve_from == "start_date" else ce) + e._offset)
+                            return show_period(e)
+                        want3 = (resolved(s._start), resolved(s._end), s._step)
+                        same_class = want3[0][0] == want3[1][0]
+                        r = s.resolve(D.ResolutionContext(cs, ce))
+                        got3 = (show_endpoint(r._start), show_endpoint(r._end), r._step)
+                        if same_class and got3 != want3:
+                            ctx.fail("span-resolve", case, f"after {op}: resolved to {got3}, expected {want3}")
+                            break
                     before = None
                     if not s.needs_resolve and s._step != 0 and type(s._start) is type(s._end):
                         before = [p.serial for p in s]
